@@ -47,6 +47,10 @@ worker() {
             [ $rc -ge 2 ] && err="$err $id"
         done
         git checkout -q -- .
+        if [ -f "$d/expected_alarms" ]; then
+            # a change that keeps the other properties but is known to break the listed ones
+            for x in $(cat "$d/expected_alarms"); do caught=$(echo "$caught" | sed "s/ $x//"); done
+        fi
         printf "%s\t%s\t%s\t\n" "$name" "${caught:- }" "${err:- }" >> "$S/out.$k"
         echo "[$k] $name: caught by:${caught}${err:+ harness-error:$err}"
     done < "$S/list"
